@@ -12,9 +12,9 @@ import Py4hwV.Proofs.C03Names
       (`same_sig_interchangeable`), while two bodies under one name with different signatures do change the result
       (`abs_binding_counterexample`, the shape of the real `Abs` finding);
     * model of the emitter's naming functions: prefixes `w_`, `i_`, `reserved_` never produce a reserved word
-      (`localWireName_not_keyword` …), `getValidVerilogName` avoids every IEEE 1364-2005 keyword except the two the
-      repo's table lacks (`validName_not_keyword_partial`, `validName_keyword_counterexample`), and the three name
-      spaces are not kept apart (`*_collision_counterexample`).
+      (`localWireName_not_keyword` …), `getValidVerilogName` avoids every IEEE 1364-2005 keyword (`validName_not_keyword`,
+      full since /repo a15e5f4; the pre-fix table is kept only as a labelled historical counterexample), and the three
+      name spaces are not kept apart (`*_collision_counterexample`).
   Level: proof for the checker; the real emitter is tied per design (translation-validation shaped), see notes/C03.md.
 -/
 namespace C03
@@ -227,19 +227,23 @@ theorem getInstanceName_not_keyword (n : String) : getInstanceName n ∉ keyword
 theorem reserved_prefix_not_keyword (n : String) : "reserved_" ++ n ∉ keywords :=
   prefixed_not_keyword "reserved_" (by decide +kernel) n
 
-/-- the full statement `∀ n, getValidVerilogName n ∉ keywords` is FALSE on the unchanged code
-    (`validName_keyword_counterexample`); proved under the forced hypothesis. -/
-theorem validName_not_keyword_partial (n : String) (h : n ∉ repoMissing) : getValidVerilogName n ∉ keywords := by
+/-- `getValidVerilogName` never returns an IEEE 1364-2005 reserved word — full statement, all names
+    (true since /repo a15e5f4 added `design` and `uwire` to the table; before, it held only for `n ∉ [design, uwire]`). -/
+theorem validName_not_keyword (n : String) : getValidVerilogName n ∉ keywords := by
   unfold getValidVerilogName
   split
   · exact reserved_prefix_not_keyword n
   · rename_i hr
     intro hk
     apply hr
-    simp [isReservedRepo, isKeyword, hk, h]
+    simp [isReservedRepo, isKeyword, hk]
 
-theorem validName_keyword_counterexample :
-    getValidVerilogName "uwire" ∈ keywords ∧ getValidVerilogName "design" ∈ keywords := by decide
+/-- HISTORICAL, about the labelled pre-fix table only (finding C03-keyword-table, status fixed): with the table as it was
+    before a15e5f4 the two words came out unprefixed.  A recurrence in /repo breaks the `naming-model` correspondence and
+    the name oracle reports a VIOLATION. -/
+theorem validName_keyword_counterexample_prefix_table :
+    getValidVerilogNamePreFix "uwire" ∈ keywords ∧ getValidVerilogNamePreFix "design" ∈ keywords ∧
+    getValidVerilogName "uwire" = "reserved_uwire" ∧ getValidVerilogName "design" = "reserved_design" := by decide
 
 example : getValidVerilogName "wire" = "reserved_wire" ∧ getValidVerilogName "data" = "data" := by decide
 
@@ -251,12 +255,11 @@ theorem port_instance_collision_counterexample : getPortName "i_x" = getInstance
 /-- **the naming scheme is collision free and keyword free — partial.**  For every module whose name space is the one
     the structural emitter builds from py4hw port names `ports`, local wire names `wires` and child names `insts`
     (`emittedNames`): every name is declared exactly once (rule R-once reports nothing) and none is a reserved word.
-    The full statement (no hypothesis) is FALSE on the unchanged code — see the four counterexamples below; the
-    hypotheses are exactly the complements of the listed findings C03-name-collision (`no_prefix`), C03-same-wire-name
-    (`wires_nodup`) and C03-keyword-table (`hk`). -/
+    The full statement (no hypothesis) is FALSE on the unchanged code — see the counterexamples below; the
+    hypotheses are exactly the complements of the listed findings C03-name-collision (`no_prefix`) and
+    C03-same-wire-name (`wires_nodup`).  (The former third hypothesis, ports ∉ [design, uwire], is gone with a15e5f4.) -/
 theorem emit_names_wf_partial (m : Module) (ports wires insts : List String)
-    (hm : names m = emittedNames ports wires insts) (h : NamesOK ports wires insts)
-    (hk : ∀ p ∈ ports, p ∉ repoMissing) :
+    (hm : names m = emittedNames ports wires insts) (h : NamesOK ports wires insts) :
     onceErrs m = [] ∧ ∀ n ∈ names m, n ∉ keywords := by
   constructor
   · rw [onceErrs_nil]
@@ -265,15 +268,14 @@ theorem emit_names_wf_partial (m : Module) (ports wires insts : List String)
   · intro n hn
     rw [hm] at hn
     simp only [emittedNames, List.mem_append, List.mem_map] at hn
-    rcases hn with ⟨p, hp, rfl⟩ | ⟨x, _, rfl⟩ | ⟨x, _, rfl⟩
-    · exact validName_not_keyword_partial p (hk p hp)
+    rcases hn with ⟨p, _, rfl⟩ | ⟨x, _, rfl⟩ | ⟨x, _, rfl⟩
+    · exact validName_not_keyword p
     · exact localWireName_not_keyword x
     · exact getInstanceName_not_keyword x
 
 theorem emit_names_collision_counterexamples :
     ¬ (emittedNames ["w_x"] ["x"] []).Nodup ∧ ¬ (emittedNames ["wire", "reserved_wire"] [] []).Nodup ∧
-    ¬ (emittedNames ["i_u"] [] ["u"]).Nodup ∧ ¬ (emittedNames [] ["t", "t"] []).Nodup ∧
-    (∃ n ∈ emittedNames ["uwire"] [] [], n ∈ keywords) := by decide
+    ¬ (emittedNames ["i_u"] [] ["u"]).Nodup ∧ ¬ (emittedNames [] ["t", "t"] []).Nodup := by decide
 
 /-- non-vacuity of `emit_names_wf_partial`: the module the emitter writes for Top(in a, out r){u1, u2; wire t} -/
 example : NamesOK ["a", "r"] ["t"] ["u1", "u2"] := by
